@@ -7,7 +7,10 @@ Nodes == 1..N
 Shapes == { p \in [Nodes -> 0..N] : p[1] = 0 /\ \A n \in 2..N : p[n] < n }
 Esc(r) == IF r = "ptrace" THEN {"none"} ELSE {"none", "setsid", "setpgid", "daemon"}
 EscFor(r, p) == { f \in [Nodes -> Esc(r)] : f[1] = "none" /\ \A n \in Nodes : (n > 1 /\ p[n] = 0) => f[n] = "none" }
-Cases == UNION { UNION { { [runner |-> r, par |-> p, esc |-> e, rootfirst |-> b] : e \in EscFor(r, p), b \in BOOLEAN } :
+\* what ends the run (ProcTree!Kill abstracts all of them): the program's own exit, a cancellation, or the
+\* caller's sync callback refusing the run (with sync-after-exec the program is already running then)
+Ends == {"exit", "cancel", "syncfail"}
+Cases == UNION { UNION { { [runner |-> r, par |-> p, esc |-> e, end |-> b] : e \in EscFor(r, p), b \in Ends } :
                           p \in Shapes } : r \in {"ptrace", "unshare", "container", "container-sa"} }
 ASSUME ndJsonSerialize("cases.ndjson", SetToSeq(Cases))
 ASSUME PrintT(<<"trees", Cardinality(Cases)>>)
